@@ -185,6 +185,13 @@ def _winds(rng):
         ws[1][2] = round(ws[0][2] * rng.uniform(1.01, 1.09), 0)
         ws[1][1] = (ws[0][1] + 6.0) % 12.0
         ws[1][0] = max(ws[1][0], 8.0)
+    for w_ in ws:
+        # "all values including 0 and negatives": a negative speed (the wind named from the other side), a direction given
+        # outside one turn of the clock face (-3 h, 15 h)
+        if rng.random() < 0.15:
+            w_[0] = -max(w_[0], 3.0)
+        if rng.random() < 0.12:
+            w_[1] = rng.choice([-3.0, -9.5, 15.0, 21.0, round(rng.uniform(-12, 24), 1)])
     rng.shuffle(ws)
     return ws
 
